@@ -56,3 +56,20 @@ Definition run2 (p : (list cspec * list string) * fenv * list pcall2) : out :=
                                             let '(s', o) := run_call2 env s c in (s', outs ++ [o]))
                               calls (init_tstate (fst rc) (snd rc), []) in
   OL (outs ++ [store_out s; prov_out s; OB (t_locked s)]).
+
+(* ---- the recorded imports (gin.config._IMPORTS) as the harness observes them: the SET of module names, sorted ---- *)
+Fixpoint imp_insert (m : string) (l : list string) : list string :=
+  match l with
+  | [] => [m]
+  | x :: r => if String.eqb m x then l else if String.leb m x then m :: l else x :: imp_insert m r
+  end.
+Definition imports_canon (l : list string) : list string := fold_right imp_insert [] l.
+Definition imports_out (s : tstate) : out := OL (map OS (imports_canon (t_imports s))).
+
+(* Stmt.run, observing in addition which imports are recorded when the calls are over (whether they succeeded or not) *)
+Definition run_imports (p : (list cspec * list string) * fenv * list pcall) : out :=
+  let '(rc, env, calls) := p in
+  let '(s, outs) := fold_left (fun acc c => let '(s, outs) := acc in
+                                            let '(s', o) := run_call env s c in (s', outs ++ [o]))
+                              calls (init_tstate (fst rc) (snd rc), []) in
+  OL (outs ++ [store_out s; prov_out s; imports_out s]).
